@@ -31,6 +31,7 @@ mod coalesce;
 mod bulkhead;
 mod cache;
 mod ratelimiter;
+mod reconnect;
 mod roundrobin;
 
 // ---------------------------------------------------------------------------------------------
@@ -263,6 +264,7 @@ fn main() {
     let scenario: fn(u64, &tokio::runtime::Runtime) = match args[1].as_str() {
         "bulkhead" => bulkhead::run,
         "budget" => budget::run,
+        "reconnect" => reconnect::run,
         "cache" => cache::run,
         "breaker" => breaker::run,
         "coalesce" => coalesce::run,
